@@ -314,6 +314,19 @@ Section NS.
   End Orders.
 End NS.
 
+(* ---- the stem check (design_notes/C11_stem_collide_fix.patch): _NamespaceFactory.check_namespace_files_are_not_type_files,
+   called by build_namespace_tree before it returns, raises ValueError when the output path of a namespace (any Namespace object
+   of the factory) is the output path of a data type.  `stem_check` says whether the code under test HAS that check; it is a
+   regenerated fact (Generated/Gen_Pin_c11tree.v: pin_c11tree_stem_check, which of the two pinned shapes /repo has). -------- *)
+Definition stem_collides (strop : str -> str) (es : bool) (ext stem : str) (outdir : path) (s : store) (types : list ty) : bool :=
+  existsb (fun k => existsb (fun t => key_eqb (ns_path strop ext stem outdir k) (out_path strop es ext outdir t)) types) (keys s).
+
+(* build_namespace_tree as a partial function: None = raises ValueError (nothing has been written at that point) *)
+Definition build_checked (stem_check : bool) (strop eqkey : str -> str) (es : bool) (ext stem : str) (outdir : path)
+           (perm : list key -> list key) (types : list ty) : option (store * key) :=
+  let b := build strop eqkey es ext outdir perm types in
+  if stem_check && stem_collides strop es ext stem outdir (fst b) types then None else Some b.
+
 (* ---- the files a generation run writes --------------------------------------------------------------------------------
    DSDLCodeGenerator.generate_all (jinja/__init__.py): provider = namespace.get_all_types if generate_namespace_types else
    namespace.get_all_datatypes; one file is written per yielded (type, output path), at that path.  `c11_targets` is that
